@@ -82,7 +82,7 @@ class Baton:
                     sched._consult(client, frame, 'step')
                 elif not g & 63 and sched.dirty_probe is not None and sched.dirty_probe():
                     sched.dirty_hits += 1
-                    sched.barrier_hit(client, frame)
+                    sched.barrier_hit(client, frame, 'dirty')
                 if g > sched.step_cap and not sched.capped:
                     sched.capped = True
                     sched.next_g = -1
@@ -129,7 +129,7 @@ class Baton:
         else:
             self.policy.on_resume(self, client)
 
-    def barrier_hit(self, client, frame):
+    def barrier_hit(self, client, frame, why='barrier'):
         """Shared state is being modified right now: an attribute write to an object reachable from a cached model
         (write barrier, called after the write) or the watched shared containers are away from their quiescent sizes
         (dirty probe). The most damaging instants for a fault or a pre-emption, so the policy may (a) park the thread
@@ -140,10 +140,10 @@ class Baton:
         first = not client.op_dirty_seen
         client.op_dirty_seen = True
         if not client.op_faulted:
-            k = self.policy.dirty_fault(self, client, first)
+            k = self.policy.dirty_fault(self, client, first, why)
             if k is not None:
                 client.op_faulted = True
-                self.faults_fired.append([client.cid, client.op_idx, client.step_in_op, 'dirty-' + k, self._site(frame)])
+                self.faults_fired.append([client.cid, client.op_idx, client.step_in_op, 'dirty-' + k, self._site(frame), why])
                 if k == 'abort':
                     raise Abort('injected abort while shared state is being modified')
                 client.stalled = True
@@ -152,9 +152,9 @@ class Baton:
                     self._switch(client, target, frame, 'stall')
                 client.stalled = False
                 return
-        target = self.policy.at_point(self, client, 'barrier')
+        target = self.policy.at_point(self, client, why)
         if target is not None and target is not client:
-            self._switch(client, target, frame, 'barrier')
+            self._switch(client, target, frame, why)
 
     def _switch(self, me, target, frame, why):
         site = self._site(frame) if frame is not None else '-'
@@ -285,7 +285,7 @@ class BasePolicy:
 
     dirty = None        # {'stall': p_first, 'abort': p_first} or None (fault-free run)
 
-    def dirty_fault(self, sched, client, first):
+    def dirty_fault(self, sched, client, first, why='barrier'):
         d = self.dirty
         dec = getattr(self, 'dec', None)
         if not d or dec is None or len(sched.runnable(exclude=client)) == 0 and not d.get('abort'):
@@ -335,7 +335,7 @@ class RandomWalkPolicy(BasePolicy):
         return r[self.dec.choice('pick', len(r))]
 
     def at_point(self, sched, client, why):
-        if why == 'barrier' and not self.dec.chance('barrier', self.pb):
+        if why in ('barrier', 'dirty') and not self.dec.chance('barrier', self.pb):
             return None
         return self._other(sched, client)
 
@@ -374,7 +374,7 @@ class RoundRobinPolicy(BasePolicy):
         return (later or r)[0]
 
     def at_point(self, sched, client, why):
-        if why == 'barrier' and not self.dec.chance('barrier', 0.5):
+        if why in ('barrier', 'dirty') and not self.dec.chance('barrier', 0.5):
             return None
         return self._next(sched, client)
 
@@ -421,7 +421,7 @@ class PCTPolicy(BasePolicy):
         self.low -= 1
 
     def at_point(self, sched, client, why):
-        if why == 'barrier':
+        if why in ('barrier', 'dirty'):
             if not self.dec.chance('barrier', self.pb):
                 return None
         elif self.change:
@@ -445,7 +445,8 @@ class ReplayPolicy(BasePolicy):
 
     def __init__(self, first_cid, switches, finish_order=None, dirty_faults=None):
         self.first_cid = first_cid
-        self.dirty_faults = {(f[0], f[1], f[2]): f[3][6:] for f in (dirty_faults or []) if str(f[3]).startswith('dirty-')}
+        self.dirty_faults = {(f[0], f[1], f[2], (f[5] if len(f) > 5 else 'barrier')): f[3][6:]
+                             for f in (dirty_faults or []) if str(f[3]).startswith('dirty-')}
         self.by_client = {}
         for s in switches:
             self.by_client.setdefault(s[0], []).append(s)
@@ -464,7 +465,7 @@ class ReplayPolicy(BasePolicy):
             q.pop(0)
             self.divergent += 1
         sched.next_g = -1
-        client.next_point = q[0][2] if q and q[0][1] == client.op_idx and q[0][5] != 'barrier' else -1
+        client.next_point = q[0][2] if q and q[0][1] == client.op_idx and q[0][5] == 'step' else -1
 
     def on_op_start(self, sched, client, op):
         BasePolicy.on_op_start(self, sched, client, op)
@@ -477,10 +478,7 @@ class ReplayPolicy(BasePolicy):
         q = self.by_client.get(client.cid, [])
         if not q or q[0][1] != client.op_idx:
             return None
-        if why == 'barrier':
-            if q[0][5] != 'barrier' or q[0][2] != client.step_in_op:
-                return None
-        elif q[0][2] != client.step_in_op:
+        if q[0][5] != why or q[0][2] != client.step_in_op:
             return None
         s = q.pop(0)
         for c in sched.clients:
@@ -489,8 +487,8 @@ class ReplayPolicy(BasePolicy):
         self.divergent += 1
         return None
 
-    def dirty_fault(self, sched, client, first):
-        return self.dirty_faults.get((client.cid, client.op_idx, client.step_in_op))
+    def dirty_fault(self, sched, client, first, why='barrier'):
+        return self.dirty_faults.get((client.cid, client.op_idx, client.step_in_op, why))
 
     def pick_other(self, sched, client):
         return self.at_point(sched, client, 'stall') or BasePolicy.pick_other(self, sched, client)
